@@ -166,6 +166,7 @@ pub fn check(ctx: &Ctx, c: &Case, label: &str, counting: bool) -> Result<(), Fai
 		let mut events = 0usize;
 		let small = m.frames.len() <= 12;
 		let mut closed = 0usize; // frames known to be complete
+		let drive_to_raw_len = bytes.len() % 2 == 1 && c.raw.tail.is_empty();
 		loop {
 			if state.bytes_read() >= size {
 				break;
@@ -211,7 +212,19 @@ pub fn check(ctx: &Ctx, c: &Case, label: &str, counting: bool) -> Result<(), Fai
 			}
 			closed = closed.max(newly_closed);
 			last_len = len;
-			if code == spec::EV_GAME_END {
+			// C13 (in-progress): the most recently completed frame keeps matching its columns while the
+			// next frame is being parsed
+			if closed > 0 && closed <= fin.ids.len() && newly_closed == closed {
+				let cur = view_mutable(state.frames());
+				let row = state.frame(closed - 1);
+				if let Err(e) = super::c13::row_matches(&row, &cur, closed - 1, version) {
+					return Ok(Err(Fail::new("op=rowview inprogress later", format!("ParseState::frame({}) after event #{} ({:#x}) of the next frame: {}", closed - 1, events, code, e)).with_file("slp", &bytes)));
+				}
+			}
+			// two equally legitimate drivers: stop at the first Game End (README), or keep calling
+			// parse_event until the declared raw length is consumed (a duplicated Game End is then just
+			// another event)
+			if code == spec::EV_GAME_END && !drive_to_raw_len {
 				break;
 			}
 		}
